@@ -48,12 +48,12 @@ var c07Layouts = []string{
 
 func (c *c07Case) source() string {
 	esc := func(s string) string { return strings.ReplaceAll(s, "\"", "\\\"") }
-	return "gauge ts\ngauge v\n" +
-		"/^A (?P<d>.+)$/ {\n  strptime($d, \"" + esc(c.Layout1) + "\")\n  ts = timestamp()\n  v = 1\n}\n" +
-		"/^B (?P<e>.+)$/ {\n  strptime($e, \"" + esc(c.Layout2) + "\")\n  ts = timestamp()\n  v = 2\n}\n" +
-		"/^T (?P<d1>[^|]+)\\|(?P<d2>.+)$/ {\n  strptime($d1, \"" + esc(c.Layout1) + "\")\n  strptime($d2, \"" + esc(c.Layout2) + "\")\n  ts = timestamp()\n  v = 5\n}\n" +
-		"/^S (?P<n>-?\\d+)$/ {\n  settime($n)\n  ts = timestamp()\n  v = 3\n}\n" +
-		"/^N/ {\n  ts = timestamp()\n  v = 4\n}\n"
+	return "gauge ts\ngauge v\ntext w\ngauge f\ncounter n\n" +
+		"/^A (?P<d>.+)$/ {\n  strptime($d, \"" + esc(c.Layout1) + "\")\n  ts = timestamp()\n  v = 1\n  w = \"same\"\n  f = 0.5\n  n++\n}\n" +
+		"/^B (?P<e>.+)$/ {\n  strptime($e, \"" + esc(c.Layout2) + "\")\n  ts = timestamp()\n  v = 2\n  w = \"same\"\n  f = 0.5\n  n++\n}\n" +
+		"/^T (?P<d1>[^|]+)\\|(?P<d2>.+)$/ {\n  strptime($d1, \"" + esc(c.Layout1) + "\")\n  strptime($d2, \"" + esc(c.Layout2) + "\")\n  ts = timestamp()\n  v = 5\n  w = \"same\"\n  f = 0.5\n  n++\n}\n" +
+		"/^S (?P<n>-?\\d+)$/ {\n  settime($n)\n  ts = timestamp()\n  v = 3\n  w = \"same\"\n  f = 0.5\n  n++\n}\n" +
+		"/^N/ {\n  ts = timestamp()\n  v = 4\n  w = \"same\"\n  f = 0.5\n  n++\n}\n"
 }
 
 func c07Loc(zone string) (*time.Location, error) {
@@ -78,6 +78,16 @@ func c07Datum(obj *code.Object, name string) (val int64, timeNs int64, ok bool) 
 		}
 	}
 	return 0, 0, false
+}
+
+// c07Time returns the timestamp of the (scalar) datum of the named metric.
+func c07Time(obj *code.Object, name string) (int64, bool) {
+	for _, m := range obj.Metrics {
+		if m.Name == name && len(m.LabelValues) > 0 {
+			return m.LabelValues[0].Value.TimeUTC().UnixNano(), true
+		}
+	}
+	return 0, false
 }
 
 func nsRepresentable(t time.Time) bool {
@@ -168,10 +178,13 @@ func runC07x(c c07Case) (*vstat.Failure, c07Res) {
 				return vstat.Failf("timestamp-value:"+what, "%s: timestamp() = %d (%v), want %d (%v)", where, tsVal, time.Unix(tsVal, 0).UTC(), want.Unix(), want.UTC())
 			}
 			if nsRepresentable(want) {
+				wT, _ := c07Time(obj, "w")
+				fT, _ := c07Time(obj, "f")
+				nT, _ := c07Time(obj, "n")
 				for _, dt := range []struct {
 					n string
 					t int64
-				}{{"ts", tsTime}, {"v", vTime}} {
+				}{{"ts", tsTime}, {"v", vTime}, {"w (text, same value every line)", wT}, {"f (float, same value every line)", fT}, {"n (counter)", nT}} {
 					if dt.t != want.UnixNano() {
 						return vstat.Failf("datum-stamp:"+what, "%s: datum %s carries %v, want %v", where, dt.n, time.Unix(0, dt.t).UTC(), want.UTC())
 					}
@@ -259,7 +272,10 @@ func runC07x(c c07Case) (*vstat.Failure, c07Res) {
 			if tsVal < t0.Unix() || tsVal > t1.Unix() {
 				return vstat.Failf("default-timestamp", "%s: timestamp() = %d (%v) outside the processing interval [%d,%d]", where, tsVal, time.Unix(tsVal, 0).UTC(), t0.Unix(), t1.Unix()), res
 			}
-			for _, dt := range []int64{tsTime, vTime} {
+			wT, _ := c07Time(obj, "w")
+			fT, _ := c07Time(obj, "f")
+			nT, _ := c07Time(obj, "n")
+			for _, dt := range []int64{tsTime, vTime, wT, fT, nT} {
 				if dt < t0.UnixNano() || dt > t1.UnixNano() {
 					return vstat.Failf("default-datum-stamp", "%s: datum carries %v, outside the processing interval [%v,%v]", where, time.Unix(0, dt).UTC(), t0.UTC(), t1.UTC()), res
 				}
